@@ -489,3 +489,26 @@ package modbus
 //@     invariant rangeindex >= 0 ==> len(batch.fields) >= 1 && batch.Quantity >= 1
 //@     invariant rangeindex >= 0 ==> batch.fields[0].Address == firstAddress
 //@     invariant forall j in 0..len(result) :: batchOK(result[j])
+
+//@ func groupForSingleConnection(fields []Field, onlyCoils bool) (res []builderSlotGroup, err error)
+//@   trusted bounded: a Go map keyed by a formatted string is outside the memory model; this contract is checked by the bounded run-time contract check (tools/bounded), not proved
+//@   modifies nothing
+//@   fresh res
+//@   ensures (forall i in 0..len(fields) :: fieldOK(fields[i])) <==> err == nil
+//@   ensures err != nil ==> len(res) == 0
+//@   ensures err == nil ==> forall j in 0..len(res) :: groupOK(res[j]) && res[j].isForCoils == onlyCoils
+
+//@ func split(fields []Field, funcType splitToFuncType) (res []BuilderRequest, err error)
+//@   requires funcType <= 7
+//@   safety[C06,C10]
+//@   modifies sortCalls
+//@   ensures[C06] !(forall i in 0..len(fields) :: fieldOK(fields[i])) ==> err != nil
+//@   ensures[C06] err != nil ==> len(res) == 0
+//@   ensures[C06] err == nil ==> forall j in 0..len(res) :: reqOK(res[j], funcType)
+//@   loop 0
+//@     forget
+//@     invariant -1 <= rangeindex && rangeindex < len(batches) && len(result) == rangeindex+1
+//@     invariant forall j in 0..len(batches) :: batchOK(batches[j])
+//@     invariant forall j in 0..len(batches) :: batches[j].Quantity != 0 ==> (batches[j].fields[0].Type == FieldTypeCoil) == coilFT(funcType)
+//@     invariant forall j in 0..len(result) :: reqOK(result[j], funcType)
+//@     invariant forall i in 0..len(fields) :: fieldOK(fields[i])
